@@ -68,12 +68,12 @@ func verifPipeOutput(b []byte) {}
 func verifWaitStatus(ws uint32) *exec.Cmd {
 	var script string
 	switch {
-	case ws&0x7f == 0:
+	case ws&0x7f == 0 && ws>>16 == 0:
 		script = fmt.Sprintf("exit %d", (ws>>8)&0xff)
-	case ws&0x7f != 0x7f:
+	case ws&0x7f != 0x7f && ws&0x80 == 0 && ws>>8 == 0 && (ws&0x7f == 9 || ws&0x7f == 15 || ws&0x7f == 2 || ws&0x7f == 1):
 		script = fmt.Sprintf("kill -%d $$", ws&0x7f)
 	default:
-		script = "exit 0"
+		panic(verifNotReplayable{}) // core dumps, stops and exotic signals cannot be produced on demand
 	}
 	cmd := exec.Command("/bin/sh", "-c", script)
 	if err := cmd.Start(); err != nil {
